@@ -224,7 +224,7 @@ class Checker:
                                  "tx_per_block": [len(world.chain.blocks[b].txs) - 1 for b in order]})
 
 
-def large_lane(chk, rng, ntrees):
+def large_lane(chk, rng, ntrees, huge=False):
     """stores of 1000-2600 blocks (cheap un-mined reward-only blocks; the store does not validate): two or three long
     branches side by side, so that many heights hold several blocks -- written in a few flushes, reloaded, compared"""
     import skepticoin.datatypes as dt
@@ -234,6 +234,8 @@ def large_lane(chk, rng, ntrees):
     for idx in range(ntrees):
         nbranch = rng.choice([2, 2, 3])
         length = rng.choice([505, 700, 1000, 1300])
+        if huge:        # more than 10,000 blocks handed to the store between two flushes (a bulk download with a rival branch)
+            nbranch, length = 2, rng.choice([5040, 5300])
         genesis_id = ref.GENESIS_ID
         blocks = []       # (real block, parent id, height) in write order
         tips = [genesis_id] * nbranch
@@ -253,11 +255,19 @@ def large_lane(chk, rng, ntrees):
         store = quiet(BlockStore, path)
         k = 0
         while k < len(blocks):
-            step = rng.choice([len(blocks), 400, 999, 1000, 1001, 1500])
+            step = rng.choice([len(blocks), 400, 999, 1000, 1001, 1500]) if not huge else len(blocks)
             for blk in blocks[k:k + step]:
                 store.add_block_to_buffer(blk)
-            store.flush_blocks_to_disk()
+            chk.c["max_batch"] = max(chk.c["max_batch"], min(step, len(blocks) - k))
+            try:
+                store.flush_blocks_to_disk()
+            except Exception as e:
+                chk.v("large-store:flush-fails", "flush of %d buffered blocks raised %r" % (min(step, len(blocks) - k), e),
+                      {"lane": "large", "branches": nbranch, "length": length, "huge": huge})
+                break
             k += step
+        if huge:
+            chk.c["batches_above_10000_blocks"] = chk.c.get("batches_above_10000_blocks", 0) + 1
         store.close()
         chk.c["large_stores"] = chk.c.get("large_stores", 0) + 1
         chk.c["large_store_blocks"] = chk.c.get("large_store_blocks", 0) + len(blocks)
@@ -269,7 +279,7 @@ def large_lane(chk, rng, ntrees):
         want[genesis_id] = None
         got = {}
         pos = {}
-        w = {"lane": "large", "branches": nbranch, "length": length}
+        w = {"lane": "large", "branches": nbranch, "length": length, "huge": huge}
         for i, b in enumerate(read):
             got[b.hash()] = got.get(b.hash(), 0) + 1
             pos[b.hash()] = i
@@ -394,7 +404,9 @@ def replay(chk, w):
 def run_shard(spec):
     env.boot()
     chk = Checker()
-    if "replay" in spec and spec["replay"].get("lane") == "threads":
+    if "replay" in spec and spec["replay"].get("lane") == "large":
+        large_lane(chk, random.Random(1), 1, huge=bool(spec["replay"].get("huge")))
+    elif "replay" in spec and spec["replay"].get("lane") == "threads":
         threads_lane(chk, random.Random(1), 6)
     elif "replay" in spec:
         replay(chk, spec["replay"])
@@ -407,6 +419,8 @@ def run_shard(spec):
             threads_lane(chk, rng, 4 if quick else 60)
         if spec["shard"] % 4 == 1:
             large_lane(chk, rng, 2 if quick else 12)
+        if spec["shard"] % 8 == 2:
+            large_lane(chk, rng, 1 if quick else 3, huge=True)
     return {"evaluations": chk.c["reloads"], "digests": sorted(chk.digests), "violations": chk.viol, "counters": chk.c,
             "samples": chk.samples}
 
@@ -426,6 +440,7 @@ def finalize(m, tier):
                    ("same_transaction_in_two_blocks", c.get("same_transaction_in_two_blocks", 0), 20),
                    ("thread_lane_flushes_with_data", c.get("thread_lane_flushes_with_data", 0), 40),
                    ("large_store_blocks", c.get("large_store_blocks", 0), 5000),
-                   ("blocks_handed_over_again", c.get("blocks_handed_over_again", 0), 50)],
+                   ("blocks_handed_over_again", c.get("blocks_handed_over_again", 0), 50),
+                   ("batches_above_10000_blocks", c.get("batches_above_10000_blocks", 0), 2)],
         "extra": {},
     }
